@@ -37,6 +37,7 @@ def all_cases(ctx):
     if not ctx.quick:
         import random
         cs += [(("rand24", ctx.seed, i), F.rand_dag(random.Random(f"c05-24-{ctx.seed}-{i}"), n_in=4, n_gates=24, name=f"r24_{i}")) for i in range(60)]
+        cs += F.f_small(2)
     return cs
 
 
